@@ -22,7 +22,7 @@ import (
 type c02Caller struct {
 	Gate bool   `json:"gate"`
 	Size int    `json:"size"`
-	Kind string `json:"kind,omitempty"` // call (default) | noctx | retry : three client functions with their own descriptors, one server method
+	Kind string `json:"kind,omitempty"` // call (default) | noctx | retry : three client functions with their own descriptors, one server method; notify : a notification whose handler is gated like the others
 	Junk int    `json:"junk,omitempty"` // bytes of ignored request payload
 }
 
@@ -85,8 +85,15 @@ func runC02(c c02Case) (*Violation, string) {
 		}
 		rig.W.Release(calls[idx].Tok)
 		if c.Strict {
-			if lost, _ := rig.AwaitAll(cl, []*Pending{calls[idx]}, 6*time.Second); len(lost) > 0 {
+			lost, undecided := rig.AwaitAll(cl, []*Pending{calls[idx]}, 6*time.Second)
+			if len(lost) > 0 {
 				return violf("call-lost", "caller %d (%s) never returned although its handler finished and 3 later probes round-tripped; hook history: %v", idx, calls[idx].Tok, hooks.History(30)), ""
+			}
+			if len(undecided) > 0 {
+				// its own handler was released, yet the call is stuck while other handlers are still gated: the server
+				// must finish calls in whatever order their handlers finish
+				return violf("call-hangs", "caller %d (%s, handler started %d finished %d) was released first but had not returned after 6s while other handlers were still blocked; hook history: %v",
+					idx, calls[idx].Tok, rig.W.Started(calls[idx].Tok), rig.W.Finished(calls[idx].Tok), hooks.History(20)), ""
 			}
 		}
 	}
@@ -108,6 +115,12 @@ func runC02(c c02Case) (*Violation, string) {
 			len(undecided), len(calls), u.Tok, rig.W.Started(u.Tok), rig.W.Finished(u.Tok), hooks.History(20)), ""
 	}
 	for i, p := range calls {
+		if p.Kind == "notify" {
+			deadline := time.Now().Add(2 * time.Second)
+			for rig.W.Finished(p.Tok) < 1 && time.Now().Before(deadline) {
+				time.Sleep(time.Millisecond)
+			}
+		}
 		if p.Err != nil {
 			return violf("call-error", "caller %d (%s) got error %v on a healthy connection", i, p.Tok, p.Err), ""
 		}
@@ -131,7 +144,10 @@ func genC02(t *rapid.T) c02Case {
 	for i := 0; i < n; i++ {
 		cc := c02Caller{Gate: rapid.IntRange(0, 3).Draw(t, fmt.Sprintf("gate%d", i)) != 0}
 		cc.Size = rapid.SampledFrom([]int{0, 0, 10, 1000, 4000, 4096, 5000, 13000, 40000}).Draw(t, fmt.Sprintf("size%d", i))
-		cc.Kind = rapid.SampledFrom([]string{"call", "call", "noctx", "retry"}).Draw(t, fmt.Sprintf("kind%d", i))
+		cc.Kind = rapid.SampledFrom([]string{"call", "call", "call", "noctx", "retry", "notify"}).Draw(t, fmt.Sprintf("kind%d", i))
+		if cc.Kind == "notify" {
+			cc.Size = 0
+		}
 		cc.Junk = rapid.SampledFrom([]int{0, 0, 200, 5000, 30000}).Draw(t, fmt.Sprintf("junk%d", i))
 		c.Callers = append(c.Callers, cc)
 		if cc.Gate {
@@ -240,7 +256,7 @@ func TestC02(t *testing.T) {
 				}
 				callers := make([]c02Caller, n)
 				for i := range callers {
-					callers[i] = c02Caller{Gate: true, Size: []int{0, 5000, 100}[i%3], Kind: []string{"call", "noctx", "retry"}[(i+k)%3], Junk: (i % 2) * 3000}
+					callers[i] = c02Caller{Gate: true, Size: []int{0, 5000, 100}[i%3], Kind: []string{"call", "noctx", "retry", "notify"}[(i+k)%4], Junk: (i % 2) * 3000}
 				}
 				run(t, c02Case{Transport: "ws", Callers: callers, Perm: perm, Strict: k%2 == 0})
 				if thorough() {
